@@ -84,6 +84,62 @@ def specOn {α} (j : Json) (parse : Json → Except String α) (spec : α → Bo
   | some x => do return Json.bool (spec (← parse x))
   | none => .ok Json.null
 
+def idxVal (j : Json) : Except String IdxVal := do
+  match j with
+  | .str "falsy" => return .falsy
+  | .str _ => return .junk
+  | _ =>
+    match j.getObjVal? "d" with
+    | .ok d => return .date (← Date.fromJson d)
+    | .error _ =>
+      match j.getObjVal? "m" with
+      | .ok m => return .md (← Metadata.fromJson m)
+      | .error _ =>
+        let a ← (← j.getObjVal? "s").getArr?
+        if a.size != 2 then throw "slice: want [start, stop]"
+        return .slice (← optFromJson Date.fromJson a[0]!) (← optFromJson Date.fromJson a[1]!)
+
+/-- `{"int": n}` | `{"pos": [i, j, k]}` | `{"tuple": [component, …]}` | `"nolen"` -/
+def indexFromJson (j : Json) : Except String Index := do
+  match j with
+  | .str _ => return .noLen
+  | _ =>
+    match j.getObjVal? "int" with
+    | .ok n => return .int (← jInt? n)
+    | .error _ =>
+      match j.getObjVal? "pos" with
+      | .ok a =>
+        let a ← a.getArr?
+        if a.size != 3 then throw "pos: want [i, j, k]"
+        return .slice (← optFromJson jInt? a[0]!) (← optFromJson jInt? a[1]!) (← optFromJson jInt? a[2]!)
+      | .error _ =>
+        return .tuple (← (← (← j.getObjVal? "tuple").getArr?).toList.mapM idxVal)
+
+/-- the implementation's exception class when it raised: `impl = {"err": name}` -/
+def implErr (j : Json) : Option String :=
+  match j.getObjVal? "impl" with
+  | .ok v => match v.getObjVal? "err" with
+    | .ok (.str x) => some x
+    | _ => none
+  | .error _ => none
+
+/-- the Spec verdict on the implementation's answer to `receiver[index]` (`null`: the Spec does not
+speak about this index shape — stepped positional slices, malformed tuples: model comparison only) -/
+def indexSpec (isSlice : Bool) (t : List Cell) (ix : Index) (j : Json) : Except String Json := do
+  match ix with
+  | .int i =>
+    match implErr j with
+    | some e => return Json.bool (e == "IndexError" && Spec.C11.intItemRefused t i)
+    | none => specOn j itemFromJson (fun out => Spec.C11.intItemSpec t i out && !Spec.C11.intItemRefused t i)
+  | .slice i j' none => specOn j itemFromJson (Spec.C11.posSliceSpec t i j')
+  | .tuple [p, e, m] =>
+    if isSlice || p.toDateIdx == .bad || e.toDateIdx == .bad then return Json.null
+    specOn j itemFromJson (Spec.C11.getItemSpec t p.toDateIdx e.toDateIdx m.toMetaIdx)
+  | .tuple [p, e] =>
+    if !isSlice || p.toDateIdx == .bad || e.toDateIdx == .bad then return Json.null
+    specOn j itemFromJson (Spec.C11.sliceItemSpec t p.toDateIdx e.toDateIdx)
+  | _ => return Json.null
+
 def result (model spec : Json) : Json := Json.mkObj [("model", model), ("spec", spec)]
 
 def handleOp (t : List Cell) (j : Json) : Except String Json := do
@@ -120,6 +176,26 @@ def handleOp (t : List Cell) (j : Json) : Except String Json := do
     let m ← metaIdx (← j.getObjVal? "m")
     return result (exceptToJson itemToJson (Triangle.getItem t p e m))
       (← specOn j itemFromJson (Spec.C11.getItemSpec t p e m))
+  | "index" =>
+    let isSlice := (← (← j.getObjVal? "recv").getStr?) == "S"
+    let ix ← indexFromJson (← j.getObjVal? "idx")
+    let model := if isSlice then TriangleSlice.getItemAny t ix else Triangle.getItemAny t ix
+    return result (exceptToJson itemToJson model) (← indexSpec isSlice t ix j)
+  | "sliceOf" =>
+    let cells ← match optField j "cells" with
+      | some cs => cellsFromJson cs
+      | none => pure t
+    let spec := match implErr j with
+      | some e => .ok (Json.bool (e == "TriangleError" && Spec.C11.sliceOfRefused cells))
+      | none => specOn j cellsFromJson
+          (fun out => Spec.C11.sliceOfSpec cells out && !Spec.C11.sliceOfRefused cells)
+    return result (exceptToJson cellsToJson (TriangleSlice.ofCells cells)) (← spec)
+  | "sliceToTriangle" =>
+    return result (exceptToJson cellsToJson (sliceToTriangle t))
+      (← specOn j cellsFromJson (Spec.C11.exactly t (fun _ => true)))
+  | "ragged" =>
+    return result (exceptToJson Json.bool (Triangle.isRightEdgeRagged t))
+      (← specOn j (fun x => x.getBool?) (Spec.C11.raggedSpec t))
   | "extract" =>
     let f ← (← j.getObjVal? "field").getStr?
     return result (Json.arr ((Triangle.extract t f).map Val.toJson).toArray)
@@ -132,7 +208,11 @@ def handleOp (t : List Cell) (j : Json) : Except String Json := do
 def handle (j : Json) : Except String Json := do
   let cells ← cellsFromJson (← j.getObjVal? "cells")
   let ops ← (← j.getObjVal? "ops").getArr?
-  match Triangle.ofCells cells with
+  -- "ctor": "slice" — the receiver is a `TriangleSlice(cells)`
+  let isSlice := match j.getObjVal? "ctor" with
+    | .ok (.str "slice") => true
+    | _ => false
+  match (if isSlice then TriangleSlice.ofCells cells else Triangle.ofCells cells) with
   | .error e => return Json.mkObj [("t", Json.mkObj [("err", Json.str e.name)]), ("results", Json.arr #[])]
   | .ok t =>
     let rs ← ops.toList.mapM (handleOp t)
